@@ -57,12 +57,19 @@ def rich_universe(rnd):
     paths = {}
     for p in names + ([names[0] + "@v2"] if rnd.random() < 0.3 else []):
         ns = []
-        for minor in range(1, rnd.randrange(1, 4) + 1):
+        only_pre = rnd.random() < 0.12         # a project that has no release yet
+        for minor in range(2, rnd.randrange(2, 5) + 1):     # (from 2: the pre-releases of v?.1.0 would be below 100)
             for patch in range(0, rnd.randrange(0, 3) + 1):
-                ns.append(100 * minor + 10 * patch)
+                n = 100 * minor + 10 * patch
+                if only_pre or rnd.random() < 0.2:
+                    # pre-releases -rc.1, -rc.2 of this tag
+                    ns += [n - 3, n - 2][: rnd.randrange(1, 3)]
+                if only_pre:
+                    continue
+                ns.append(n)
                 if rnd.random() < 0.35:
-                    ns.append(100 * minor + 10 * patch + 5)
-        paths[p] = ns
+                    ns.append(n + 5)
+        paths[p] = sorted(set(ns))
     req = {}
     for p, ns in paths.items():
         for n in ns:
@@ -82,8 +89,8 @@ def rich_ops(rnd, paths):
     kinds = ["latest", "exact", "lt", "le", "gt", "ge", "upgrade", "patch", "ref", "ref", "patch"]
 
     def get(p, k):
-        tagged = [n for n in paths[p] if n % 10 == 0]
-        n = rnd.choice(paths[p]) if k == "ref" else rnd.choice(tagged + [max(tagged) + 100])
+        tagged = [n for n in paths[p] if n % 10 in (0, 7, 8, 9)]
+        n = rnd.choice(paths[p]) if k == "ref" else rnd.choice(tagged + [max(tagged) // 10 * 10 + 100])
         return {"kind": "get", "path": p, "q": {"kind": k, "n": n}}
 
     for _ in range(5):
